@@ -278,19 +278,17 @@ theorem readHdr_spec :
 /-! ### outcomes -/
 
 /-- the model, in state `s` with `del` handed out so far, ends like the specification result `res`:
-    accepted ⇒ `io.EOF` after exactly the specification's output; rejected ⇒ (under the size cap, see
-    `CommandsSim`) another error, outputs agreeing position by position. `B` bounds the unread input bits. -/
+    accepted ⇒ `io.EOF` after exactly the specification's output; rejected ⇒ another error, outputs
+    agreeing position by position. (`B`: a bound of the unread input bits, no longer used.) -/
 def Outcome (sd : ByteArray) (s : State) (del : List UInt8) (B : Nat) (res : Except Err Unit × St) : Prop :=
   match res with
   | (.ok _, st') => ∃ X, Trace sd s X .eof ∧ del ++ X = st'.out.toList
-  | (.error _, st') =>
-    B + st'.out.size < 2 ^ 24 → ∃ X e, Trace sd s X e ∧ e ≠ .eof ∧ Agree (del ++ X) st'.out.toList
+  | (.error _, st') => ∃ X e, Trace sd s X e ∧ e ≠ .eof ∧ Agree (del ++ X) st'.out.toList
 
 theorem Outcome.run {sd : ByteArray} {s s' : State} {X del : List UInt8} {B : Nat} {res : Except Err Unit × St}
     (R : Run sd s X s') (h : Outcome sd s' (del ++ X) B res) : Outcome sd s del B res := by
   rcases res with ⟨_ | _, st'⟩
-  · intro hc
-    obtain ⟨Y, e, T, he, ha⟩ := h hc
+  · obtain ⟨Y, e, T, he, ha⟩ := h
     exact ⟨X ++ Y, e, R.trace T, he, by rw [← List.append_assoc]; exact ha⟩
   · obtain ⟨Y, T, ha⟩ := h
     exact ⟨X ++ Y, R.trace T, by rw [← List.append_assoc]; exact ha⟩
@@ -305,7 +303,6 @@ theorem Outcome.step {sd : ByteArray} {s : State} {del : List UInt8} {B : Nat} {
 theorem outcome_error (sd : ByteArray) (e : BErr) (he : e ≠ .eof) (s1 : State) (ws : Nat) (del : List UInt8) (B : Nat)
     (e' : Err) (st' : St) (hw : Inv ws s1.dict st'.out.toList del) :
     Outcome sd (fin (.error e, s1)) del B (.error e', st') := by
-  intro _
   obtain ⟨X, T, h⟩ := trace_error sd e s1 ws _ del hw
   exact ⟨X, e, T, he, by rw [h]; exact Agree.refl _⟩
 
@@ -757,8 +754,7 @@ theorem hdr_action (sd : ByteArray) (ws B fuel : Nat) (I G : St → Prop) (hReac
           · rcases hsc : specCompressed sd ws mlen ds (stAt st k) with ⟨e'' | ds', st'⟩
             · rw [hsc] at hc2
               simp only at hc2 ⊢
-              intro hcap
-              exact hc2 (by simp only [stAt_bits, List.length_drop]; omega)
+              exact hc2
             · rw [hsc] at hc2
               simp only at hc2 ⊢
               obtain ⟨X, s', hrun, hRel', hstep', hlast', hbits'⟩ := hc2
@@ -878,7 +874,6 @@ theorem stream_sim_on (sd : ByteArray) (hW : WinBitsSim) (I G : St → Prop)
       rcases hy : readWindowBits st0 with ⟨e' | w', st1⟩ <;> rw [hx, hy] at hsim <;> simp only at hsim
     · -- bad WBITS
       refine ⟨progress_error _ _ _, ?_⟩
-      intro _
       refine ⟨[], e, ?_, hsim.1, ?_⟩
       · have := trace_latched sd (fin (.error e, { (init bytes) with rd := r })) e (by rw [fin_err])
         rw [fin_err] at this ⊢
